@@ -17,6 +17,7 @@ import (
 // together with the assumptions).
 type Oblig struct {
 	Kind string // assert | panic | unwind | nil | bounds | typeassert | unlock ...
+	NoFinish bool // decided without assuming that every thread finished (deadlock queries)
 	Cond *Term
 	Msg  string
 	Pos  string
@@ -46,6 +47,7 @@ type Config struct {
 	AssumeLoops   map[string]bool // loops whose unwinding failure is pruned by assumption (spin loops)
 	Rounds        int
 	VisAll        bool // every heap access is a scheduling point (race mode)
+	NoResize      map[int]bool // resize hints (0 grow, 1 shrink, 2 clear) excluded from this instance by assumption
 	SmallTables   int  // >0: constructors build tables of this many root buckets instead of 32
 	MaxDepth      int
 	Trace         bool
@@ -94,8 +96,9 @@ type Exec struct {
 	tickers   []tickerRec
 	feas      *Solver
 	feasN     int // assumptions already sent to feas
-	FeasQ, FeasPruned, FeasCached, PrunedCalls int
+	FeasQ, FeasPruned, FeasCached, PrunedCalls, FeasTimeouts int
 	feasModels []*Model
+	vis        bool
 	feasMemo   map[int]bool
 	FeasTime  time.Duration
 	FeasOff   bool
@@ -179,7 +182,10 @@ func (x *Exec) act(g *Term) *Term {
 	if x.thr == nil {
 		return g
 	}
-	return x.U.And(g, x.thr.inWin(x.U))
+	if x.vis {
+		return x.U.And(g, x.thr.inWin(x.U))
+	}
+	return x.U.And(g, x.thr.inWinPlain(x.U))
 }
 
 func (x *Exec) Assume(g, c *Term, txt string) {
@@ -1092,6 +1098,9 @@ func (x *Exec) restrictIface(v IfaceV, cond *Term) IfaceV {
 
 
 func (x *Exec) stepSafe(f *frame, ins ssa.Instruction, g *Term) {
+	if x.U.NumTerms() > 4000000 {
+		x.fail("formula too large (> 4M term nodes) while executing %s: reduce the bound", f.fn.String())
+	}
 	defer func() {
 		if e := recover(); e != nil {
 			if _, ok := e.(*ExecError); ok {
@@ -1135,11 +1144,12 @@ func (x *Exec) feasible(g *Term) bool {
 		return false // infeasible stays infeasible as assumptions only grow
 	}
 	if x.feas == nil {
-		s, err := NewSolver(x.U, "z3-new", 3000)
+		s, err := NewSolver(x.U, "z3-new", 1500)
 		if err != nil {
 			x.FeasOff = true
 			return true
 		}
+		s.Grace = 1500 * time.Millisecond
 		x.feas = s
 	}
 	// cheap pre-check: a cached model of an earlier query may already witness g
@@ -1172,6 +1182,13 @@ func (x *Exec) feasible(g *Term) bool {
 		x.FeasPruned++
 		x.feasMemo[g.ID] = false
 		return false
+	}
+	if res == Unknown {
+		x.FeasTimeouts++
+		if x.FeasTimeouts >= 8 {
+			// the side solver is no help on this instance any more
+			x.FeasOff = true
+		}
 	}
 	return true
 }
